@@ -65,7 +65,7 @@ def canon(obj):
       if t and t[0] == "defaultdict" and len(t) == 4 and isinstance(t[3], tuple):
         return ("defaultdict", t[1], t[2], tuple(sorted(t[3], key=repr)))
     return t
-  return sort_dicts(c09.deep_canon(obj))
+  return sort_dicts(c09.deep_canon(obj, intern_tuples=True))
 
 
 def reach(root):
@@ -456,6 +456,44 @@ def correspondence_case(rng, res, intern, stream, idx):
   res.nontrivial({"h": heap, "g": gen})
 
 
+def value_form(x, depth=0):
+  """Value and type of a Python value, without identities (for "evaluates to an equal value of the same type")."""
+  import enum as enum_lib
+  if depth > 40:
+    return ("deep",)
+  if x is fdl.NO_VALUE:
+    return ("NO_VALUE",)
+  if isinstance(x, enum_lib.Enum):
+    return ("enum", type(x).__name__, x.name)
+  if isinstance(x, float):
+    return ("float", "nan" if math.isnan(x) else x.hex())
+  if isinstance(x, complex):
+    return ("complex", value_form(x.real), value_form(x.imag))
+  if isinstance(x, (bool, int, str, bytes, type(None), type(Ellipsis))):
+    return (type(x).__name__, repr(x))
+  if isinstance(x, type) or (callable(x) and hasattr(x, "__qualname__") and not isinstance(x, config_lib.Buildable)):
+    return ("sym", getattr(x, "__module__", ""), x.__qualname__)
+  if isinstance(x, slice):
+    return ("slice", value_form(x.start), value_form(x.stop), value_form(x.step))
+  if isinstance(x, (set, frozenset)):
+    return (type(x).__name__, tuple(sorted((value_form(v, depth + 1) for v in x), key=repr)))
+  if isinstance(x, config_lib.Buildable):
+    tags = tuple(sorted((repr(k), tuple(sorted(t.__name__ for t in ts)))
+                        for k, ts in x.__argument_tags__.items() if ts))
+    return ("buildable", type(x).__name__, value_form(x.__fn_or_cls__),
+            tuple((k, value_form(v, depth + 1)) for k, v in config_lib.ordered_arguments(x).items()), tags)
+  if isinstance(x, collections.defaultdict):
+    return ("defaultdict", value_form(x.default_factory),
+            tuple(sorted(((value_form(k), value_form(v, depth + 1)) for k, v in x.items()), key=repr)))
+  if isinstance(x, dict):
+    return ("dict", tuple(sorted(((value_form(k), value_form(v, depth + 1)) for k, v in x.items()), key=repr)))
+  if isinstance(x, tuple) and hasattr(x, "_fields"):
+    return ("namedtuple", type(x).__name__, tuple(value_form(v, depth + 1) for v in x))
+  if isinstance(x, (list, tuple)):
+    return (type(x).__name__, tuple(value_form(v, depth + 1) for v in x))
+  return ("opaque", type(x).__name__, repr(x)[:80])
+
+
 # ---- value -> expression -------------------------------------------------------------------------
 def value_expression_stream(rng, res, n):
   import libcst as cst
@@ -493,7 +531,7 @@ def value_expression_stream(rng, res, n):
                                   f"{type(e).__name__}: {e}", replay))
       continue
     # "an equal value of the same type": sharing inside the value is not part of this clause
-    if strip_sharing(canon(got)) != strip_sharing(canon(v)):
+    if value_form(got) != value_form(v):
       res.failures.append(Failure(None, f"C12 value#{i}: the expression {text[:80]!r} evaluates to a different "
                                   "value or type", replay))
 
